@@ -4,20 +4,23 @@
 #define SD_K ((int)(vm_last_k & 3))
 #define SD_EXACT (fabs(x) < 4503599627370496.0)
 #define SD_R __CPROVER_return_value
-/*@ clause frame src=property props=C14 */
+/*@ clause frame src=property props=C14 only=enforce */
 __CPROVER_assigns(vm_last_k, cap_d)
+/*@ clause frame.caller src=property only=replace */
+/* the ghost variables of the model / captures are not part of what a caller sees */
+__CPROVER_assigns()
 /*@ clause post.nan src=property props=C13,C16 */
 __CPROVER_ensures(isnan(SD_R) == (isnan(x) || isinf(x)))
 /*@ clause post.range src=property props=C16 */
 __CPROVER_ensures(isnan(SD_R) || (-1.0 <= SD_R && SD_R <= 1.0))
-/*@ clause post.multiples_of_90 src=property props=C16 */
+/*@ clause post.multiples_of_90 src=property props=C16 only=enforce */
 __CPROVER_ensures(!SD_EXACT || cap_d != 0 || (SD_R == (SD_K == 0 ? 0.0 : SD_K == 1 ? 1.0 : SD_K == 2 ? 0.0 : -1.0)))
 /*@ clause post.zero_sign src=standard props=C16 */
 __CPROVER_ensures(isnan(SD_R) || SD_R != 0 || signbit(SD_R) == signbit(x))
-/*@ clause post.multiples_of_45 src=property props=C16 */
+/*@ clause post.multiples_of_45 src=property props=C16 only=enforce */
 __CPROVER_ensures(!SD_EXACT || fabs(cap_d) != 45.0 || fabs(SD_R) == 0x1.6a09e667f3bcdp-1)
-/*@ clause post.multiples_of_30 src=property props=C16 */
+/*@ clause post.multiples_of_30 src=property props=C16 only=enforce */
 __CPROVER_ensures(!SD_EXACT || fabs(cap_d) != 30.0 || fabs(SD_R) == ((SD_K & 1) == 0 ? 0.5 : 0x1.bb67ae8584caap-1))
-/*@ clause post.quadrant_sign src=property props=C16 */
+/*@ clause post.quadrant_sign src=property props=C16 only=enforce */
 __CPROVER_ensures(!SD_EXACT || cap_d == 0 ||
    (SD_K == 0 ? (cap_d > 0 ? SD_R >= 0 : SD_R <= 0) : SD_K == 1 ? SD_R > 0 : SD_K == 2 ? (cap_d > 0 ? SD_R <= 0 : SD_R >= 0) : SD_R < 0))
